@@ -1,11 +1,11 @@
-\* negative control: remove_connection that forgets the byte counters must violate TotalsMonotone
+\* part S (quick tier): two circuits with byte counters, one key, clock stopped
 SPECIFICATION SpecS
 CONSTANTS
-  T0 = 10  MaxTime = 12
-  Peers = {1}  Seeders = {1, 2}  Circuits = {1, 2}
-  MaxIpAge = 2  MinDht = 3  MaxDht = 1  Interval = 1  ConnLimit = 2  MaxBytes = 1  MaxResult = 1
+  T0 = 10  MaxTime = 10
+  Peers = {1}  Seeders = {1}  Circuits = {1, 2}
+  MaxIpAge = 2  MinDht = 3  MaxDht = 1  Interval = 1  ConnLimit = 1  MaxBytes = 1  MaxResult = 1
   SeedingChoices = {FALSE}
-  DupAdd = FALSE  ExpireUsed = FALSE  NoGate = FALSE  ForgetHistory = TRUE
+  DupAdd = FALSE  ExpireUsed = FALSE  NoGate = FALSE  ForgetHistory = FALSE
   Nodes = {1}  NSwarmA = 1  PSeeders = {1}  PexAge = 3  PexCap = 2  SendCap = 10
   Unload = FALSE  ExpireNewest = FALSE  CrossSwarm = FALSE  MaxMsgs = 0  MaxAnn = 2
 INVARIANT TypeOK
